@@ -142,7 +142,9 @@ package types
 //@   opt assume-frame
 //@   requires params.MinGasPrice != nil
 //@   ensures result == nil ==> allSubsPresent(content(txdata))
+//@   ensures result == nil ==> forall(j, 0, subCount(content(txdata)), nowTime <= subExpiry(content(txdata), j) && subExpiry(content(txdata), j) - nowTime <= 1800 && txTime <= subExpiry(content(txdata), j))
 //@   invariant @loop 0: 0 <= $k && $k <= len(box.SubTxList) && forall(i, 0, $k, box.SubTxList[i] != nil)
+//@   invariant @loop 0: forall(j, 0, $k, nowTime <= subExpiry(content(txdata), j) && subExpiry(content(txdata), j) - nowTime <= 1800 && txTime <= subExpiry(content(txdata), j))
 //@   nopanic
 
 // the transaction id: keccak over the RLP of the transaction (T5); a transaction object is treated as immutable
@@ -158,16 +160,23 @@ package types
 //@   ensures err == nil ==> timeStamp <= old(tx.data.Expiration) && old(tx.data.Expiration) - timeStamp <= 1800
 //@   ensures err == nil ==> old(tx.data.ChainID) == chainID && old(val(tx.data.Amount)) >= 0 && old(len(tx.data.RecipientName)) <= 100 && old(len(tx.data.Message)) <= 1024
 //@   ensures err == nil ==> old(boxOK(tx))
+//@   ensures err == nil ==> old(subsInWindow(tx, timeStamp))
 
 // JSON decoding of a box payload is a function of the payload bytes (uninterpreted): whether it fails and whether every element of
 // the sub-transaction list is present (a JSON null is decoded to a nil pointer).  Non-null ones have their required fields.
 //@ spec func boxBad(c [0]byte) bool
 //@ spec func allSubsPresent(c [0]byte) bool
+//@ spec func subCount(c [0]byte) int
+//@ spec func subExpiry(c [0]byte, i int) uint64
+// every sub-transaction of a box payload is inside its expiry window at time t (C04: a sub-transaction executes with its box)
+//@ pred subsInWindow(tx *Transaction, t uint64) = tx.data.Type != params.BoxTx || boxBad(content(tx.data.Data)) || forall(j, 0, subCount(content(tx.data.Data)), t <= subExpiry(content(tx.data.Data), j) && subExpiry(content(tx.data.Data), j) - t <= 1800)
 //@ pred boxOK(tx *Transaction) = tx.data.Type != params.BoxTx || boxBad(content(tx.data.Data)) || allSubsPresent(content(tx.data.Data))
 //@ func GetBox   trusted
 //@   modifies nothing
 //@   ensures result1 != nil <==> boxBad(content(txData))
 //@   ensures result1 == nil ==> result0 != nil
+//@   ensures result1 == nil ==> len(result0.SubTxList) == subCount(content(txData))
+//@   ensures result1 == nil ==> forall(i, 0, len(result0.SubTxList), result0.SubTxList[i] != nil ==> result0.SubTxList[i].data.Expiration == subExpiry(content(txData), i))
 //@   ensures result1 == nil && allSubsPresent(content(txData)) ==> forall(i, 0, len(result0.SubTxList), result0.SubTxList[i] != nil)
 //@   ensures result1 == nil && !allSubsPresent(content(txData)) ==> exists(i, 0, len(result0.SubTxList), result0.SubTxList[i] == nil)
 //@   ensures result1 == nil ==> forall(i, 0, len(result0.SubTxList), result0.SubTxList[i] != nil ==> result0.SubTxList[i].data.GasPrice != nil && result0.SubTxList[i].data.Amount != nil)
